@@ -121,6 +121,7 @@ Outcome paths(Json const& plan)
     static char const* const names[] = {"gray8", "rgb8", "rgba8"};
     using P3 = gil::gray8_pixel_t; using P4 = gil::rgb8_pixel_t; using P5 = gil::rgba8_pixel_t;
     PathsCfg cfg;
+    cfg.scan_skip_seeks = true;
     // plain PBM (P1) is read as gray8 (pnm/detail/is_allowed.hpp: "ascii mono images are read gray8_image_t")
     if (v == "p1" || v == "p1c" || v == "p1d") return PathsFor<Tag, gil::gray8_image_t, any_t, gil::gray8_image_t, P3, P4, P5>::run(plan, bytes, "pnm", cfg, names);
     if (v == "gray1") return PathsFor<Tag, gray1_t, any_t, gray1_t, P3, P4, P5>::run(plan, bytes, "pnm", cfg, names);
